@@ -53,15 +53,15 @@ def scan_trusted(woven):
     return sorted(set(out))
 
 
-def run_unit(name, rlimit=None, seed=None, timeout=900):
+def run_unit(name, rlimit=None, seed=None, timeout=900, prop=None):
     """weave + verify one unit.  If the plain weave is rejected by the front end AND the extracted code differs from golden,
     retry with contract lines attached to changed code dropped (levels 1, 2): the function contracts stay, stale loop
     invariants / proof hints go.  A unit verified that way is as good as any; one that then fails is reported as a
     violation of the obligations that no longer hold (DESIGN.md section 8, Brittleness)."""
-    r = _run_unit_level(name, 0, rlimit, seed, timeout)
+    r = _run_unit_level(name, 0, rlimit, seed, timeout, prop)
     if r['status'] == 'undecided' and r.get('frontend') and r.get('changed'):
         for level in (1, 2):
-            r2 = _run_unit_level(name, level, rlimit, seed, timeout)
+            r2 = _run_unit_level(name, level, rlimit, seed, timeout, prop)
             if r2['status'] in ('ok', 'failed'):
                 r2['fallback_level'] = level
                 r2['fallback_reason'] = r['reason']
@@ -69,7 +69,7 @@ def run_unit(name, rlimit=None, seed=None, timeout=900):
     return r
 
 
-def _run_unit_level(name, drop_level, rlimit=None, seed=None, timeout=900):
+def _run_unit_level(name, drop_level, rlimit=None, seed=None, timeout=900, prop=None):
     r = {'unit': name, 'status': None, 'reason': None, 'woven': None, 'analysis': None, 'res': None, 'trusted': [],
          'fallback_level': 0}
     try:
@@ -78,9 +78,11 @@ def _run_unit_level(name, drop_level, rlimit=None, seed=None, timeout=900):
         r['changed'] = any(not f['identical_to_golden'] for f in w.functions)
         r['woven'] = w
         r['trusted'] = scan_trusted(w)
-        if w.trusted_changed:
+        changed_here = [k for (k, props) in w.trusted_changed if not props or prop is None or prop in props]
+        if changed_here:
             r['status'] = 'undecided'
-            r['reason'] = 'the body of a function trusted by contract changed (its contract is an assumption about that text): ' + '; '.join(w.trusted_changed)
+            r['reason'] = ('a function that is NOT verified but whose behaviour this property assumes (trusted helper / out of reach) '
+                           'changed: ' + '; '.join(changed_here))
             return r
         path = w.write()
     except (extract.ExtractError, U.WeaveError, extract.rtok.LexError) as e:
@@ -247,7 +249,7 @@ def main(argv):
     units = list(pc['units'])
     results = []
     with concurrent.futures.ThreadPoolExecutor(max_workers=min(8, max(1, len(units)))) as ex:
-        futs = [ex.submit(run_unit, u, pc.get('rlimit'), None) for u in units]
+        futs = [ex.submit(run_unit, u, pc.get('rlimit'), None, 900, prop) for u in units]
         results = [f.result() for f in futs]
 
     extra = []   # results of additional engines (kani, stability seeds, probes)
